@@ -402,6 +402,7 @@ func opConn(args []string) (out string) {
 	r.stabilise()
 	var fedUnsol []string
 	var fedBad []int32
+	rawBad := map[string]bool{}
 	readEnded := false
 	for _, ev := range args[1:] {
 		switch {
@@ -515,8 +516,8 @@ func opConn(args []string) (out string) {
 			r.tr.feed(frameOf(&pdu.DeliverSM{Header: pdu.Header{Sequence: int32(atoi(f[1]))}, ServiceType: f[2]}))
 			fedUnsol = append(fedUnsol, f[1]+"p"+f[2])
 		case strings.HasPrefix(ev, "raw:"):
-			f := strings.SplitN(ev, ":", 3)
-			if len(f) != 3 {
+			f := strings.Split(ev, ":")
+			if len(f) != 3 && len(f) != 4 {
 				return "bad-op"
 			}
 			b, err := canon.UnHex(f[2])
@@ -527,12 +528,28 @@ func opConn(args []string) (out string) {
 			r.mu.Lock()
 			r.rawK[seq] = f[1]
 			r.mu.Unlock()
-			// what the property expects of this frame (classified with the library's own ReadPDU)
-			if p, err := safeReadPDU(b); err == nil {
+			// what the property expects of this frame: stated by the script where the generator knows it by construction
+			// (independent of the library), otherwise classified with the library's own ReadPDU
+			expect := "?"
+			if len(f) == 4 {
+				expect = f[3]
+			}
+			if expect == "?" {
+				if p, err := safeReadPDU(b); err == nil {
+					expect = "ok"
+				} else if p != nil {
+					expect = "bad"
+				} else {
+					expect = "fatal"
+				}
+			}
+			switch expect {
+			case "ok":
 				fedUnsol = append(fedUnsol, fmt.Sprintf("%dp%s", seq, f[1]))
-			} else if p != nil {
+			case "bad":
 				fedBad = append(fedBad, seq)
-			} else {
+				rawBad[fmt.Sprintf("%dp%s", seq, f[1])] = true
+			default:
 				readEnded = true
 			}
 			r.tr.feed(b)
@@ -690,6 +707,11 @@ func opConn(args []string) (out string) {
 	for _, d := range r.delivered {
 		if strings.Contains(d, "p") || expected[d] {
 			gotUnsol = append(gotUnsol, d)
+		}
+	}
+	for _, d := range r.delivered {
+		if rawBad[d] {
+			fail("C16:undecodable-frame-delivered-to-application " + d)
 		}
 	}
 	for i, g := range gotUnsol {
@@ -966,10 +988,20 @@ func genConnScenario(r *gen.Rng, p connProfile) string {
 			if connDone && drain && !watchGone {
 				continue
 			}
-			frame := rawMutatedFrame(r, int32(newSeq()))
+			frame, expect := rawMutatedFrame(r, int32(newSeq()))
 			unsolK++
-			ev = append(ev, fmt.Sprintf("raw:%d:%s", unsolK, canon.Hex(frame)))
-			if pp, err := safeReadPDU(frame); err == nil {
+			if expect == "?" {
+				ev = append(ev, fmt.Sprintf("raw:%d:%s", unsolK, canon.Hex(frame)))
+			} else {
+				ev = append(ev, fmt.Sprintf("raw:%d:%s:%s", unsolK, canon.Hex(frame), expect))
+			}
+			pp, err := safeReadPDU(frame)
+			if expect == "bad" {
+				pp, err = new(pdu.GenericNACK), fmt.Errorf("undecodable by construction")
+			} else if expect == "ok" {
+				err = nil
+			}
+			if err == nil {
 				if !drain && !watchGone {
 					offeringBlocked = true
 					if connDone {
@@ -1339,17 +1371,22 @@ func opConnBurst(args []string) string {
 
 // rawMutatedFrame: a representable PDU of a random type, marshalled, then damaged in its body; the header keeps a
 // known command_id, the given sequence number and the real length.
-func rawMutatedFrame(r *gen.Rng, seq int32) []byte {
+func rawMutatedFrame(r *gen.Rng, seq int32) ([]byte, string) {
 	if r.Chance(30) {
-		return udhFrame(r, seq)
+		return udhFrame(r, seq), "?"
 	}
 	if r.Chance(15) {
-		// framing and command_id intact, the body missing altogether (command_length 16 for a command with mandatory fields)
+		// framing and command_id intact, the body missing altogether: command_length 16 for a command with mandatory
+		// fields is undecodable; for enquire_link / unbind (no body at all) it is the whole PDU
 		f := make([]byte, 16)
 		putBE32(f, 16)
-		putBE32(f[4:], uint32(r.Pick(0x04, 0x05, 0x21, 0x103, 0x80000004, 0x80000005, 0x02, 0x09, 0x15, 0x06)))
+		id := r.Pick(0x04, 0x05, 0x21, 0x103, 0x80000004, 0x80000005, 0x02, 0x09, 0x15, 0x06)
+		putBE32(f[4:], uint32(id))
 		putBE32(f[12:], uint32(seq))
-		return f
+		if id == 0x15 || id == 0x06 {
+			return f, "ok"
+		}
+		return f, "bad"
 	}
 	for {
 		f, _ := validFrame(r, gen.Representable)
@@ -1365,7 +1402,7 @@ func rawMutatedFrame(r *gen.Rng, seq int32) []byte {
 		putBE32(g[8:], 0)
 		putBE32(g[12:], uint32(seq))
 		putBE32(g, uint32(len(g)))
-		return g
+		return g, "?"
 	}
 }
 
